@@ -194,7 +194,7 @@ func (ro *Roles) countShape(r *Report, rule string) {
 	fn := ro.Count
 	key := FuncName(fn) + ": counts every running job of the pipeline"
 	pos := w.Pos(fn.Pos())
-	res := w.EnumPaths(fn, EnumOpts{Inline: true})
+	res := w.EnumPaths(fn, EnumOpts{Inline: true, Opaque: w.statelessCallee})
 	r.Count("paths", len(res.Paths))
 	// the list iterated
 	listOK, incOK, noOtherBranch := false, false, true
@@ -339,7 +339,7 @@ func (ro *Roles) acceptEffects(r *Report, which map[string]bool) {
 	}
 	fn := ro.Accept
 	fname := FuncName(fn)
-	res := w.EnumPaths(fn, EnumOpts{Inline: true})
+	res := w.EnumPaths(fn, EnumOpts{Inline: true, Opaque: w.statelessCallee})
 	r.Count("paths", len(res.Paths))
 	if res.Truncated || len(res.Paths) == 0 {
 		r.Undecided("accept.paths", fname, w.Pos(fn.Pos()), "cannot enumerate the accept function's paths")
